@@ -194,6 +194,31 @@ fn simple_strategy(_tier: Tier) -> BoxedStrategy<PairCase> {
     (ver.clone(), ver).prop_map(|(a, b)| PairCase { a, b }).boxed()
 }
 
+/// versions of real pkgsrc packages (sample of tests/data/pkgnames.txt), paired with an edited copy
+fn real_strategy(_t: Tier) -> BoxedStrategy<PairCase> {
+    let vers: Vec<&'static str> = crate::props::c17::SEED_PKGNAMES
+        .lines()
+        .filter_map(|l| l.rsplit_once('-').map(|(_, v)| v))
+        .filter(|v| !v.is_empty() && !v.contains(['<', '>', '{', '}']))
+        .collect();
+    (0..vers.len(), 0..vers.len(), prop::collection::vec(vergen::edit(), 0..=2), any::<bool>())
+        .prop_map(move |(i, j, edits, same)| {
+            let a = vers[i].to_string();
+            // B: the same real version after 0-2 edits on its character-level tokens, or another real one
+            let b = if same {
+                let mut toks: Vec<String> = a.chars().map(|c| c.to_string()).collect();
+                for e in &edits {
+                    vergen::apply_edit(&mut toks, e);
+                }
+                toks.concat().replace('-', "")
+            } else {
+                vers[j].to_string()
+            };
+            PairCase { a: m::cap_digit_runs(&a, 18), b: m::cap_digit_runs(&b, 18) }
+        })
+        .boxed()
+}
+
 pub const ENUM_TOKENS: [&str; 16] = ["0", "1", "2", "10", ".", "_", "alpha", "beta", "pre", "rc", "pl", "nb1", "nb", "a", "B", "é"];
 
 fn enum_versions(max_len: usize) -> Vec<String> {
@@ -243,6 +268,13 @@ pub fn property() -> Property {
                 "simple",
                 "dotted numbers with one modifier/letter suffix and optional nb",
                 simple_strategy,
+                |t| t.pick(60_000, 1_000_000),
+                check_pair,
+            ),
+            random_stream(
+                "real-versions",
+                "versions of real pkgsrc packages against edited copies and against each other",
+                real_strategy,
                 |t| t.pick(60_000, 1_000_000),
                 check_pair,
             ),
